@@ -36,15 +36,16 @@ var run *vlib.Run
 var driver = "/verif/.build/bin/c13driver"
 
 type scenario struct {
-	Name    string
-	Input   string   // fixture under functest/packages
-	InName  string   // file name used in the scratch dir
-	OutName string   // "" => same path as input
-	Args    []string // extra args to `relic sign`
-	Cmd     string   // "sign" (default)
-	HardLink bool    // give the input a second link (forces rewrite for same path)
-	PE      bool     // check PE checksum in "new complete"
-	NoVerify bool    // output has no self-contained verifier (detached)
+	Name     string
+	Input    string   // fixture under functest/packages
+	InName   string   // file name used in the scratch dir
+	OutName  string   // "" => same path as input
+	Args     []string // extra args to `relic sign`
+	Cmd      string   // "sign" (default)
+	HardLink bool     // give the input a second link (forces rewrite for same path)
+	PE       bool     // check PE checksum in "new complete"
+	NoVerify bool     // output has no self-contained verifier (detached)
+	OutLink  string   // "hard" | "sym": the pre-existing destination is another name (hard link / symlink) of the input
 }
 
 const conf = `tokens:
@@ -96,7 +97,14 @@ func (s scenario) prepare(dir string, destPresent bool) prepared {
 		}
 	} else {
 		p.out = filepath.Join(dir, s.OutName)
-		if destPresent {
+		switch {
+		case destPresent && s.OutLink == "hard":
+			os.Link(p.in, p.out)
+			p.oldOut = p.inBytes
+		case destPresent && s.OutLink == "sym":
+			os.Symlink(s.InName, p.out)
+			p.oldOut = p.inBytes
+		case destPresent:
 			os.WriteFile(p.out, oldContent, 0o644)
 			p.oldOut = oldContent
 		}
@@ -167,11 +175,11 @@ func mainCalls3(log []byte) (pid string, calls []string, lines []string, rtBefor
 const hangLimit = 90 * time.Second
 
 type result struct {
-	hung     bool
-	rc       int
-	killed   bool
-	log      []byte
-	stderr   string
+	hung   bool
+	rc     int
+	killed bool
+	log    []byte
+	stderr string
 }
 
 func trace(dir string, argv []string, inject string) result {
@@ -390,6 +398,7 @@ func main() {
 		{Name: "pe-rewrite-samepath-hardlinked", Input: "ClassLibrary1.dll", InName: "in.dll", HardLink: true, PE: true},
 		{Name: "cat-wholefile", Input: "hyperv.cat", InName: "in.cat", OutName: "out.cat"},
 		{Name: "msi-copy-then-edit", Input: "dummy.msi", InName: "in.msi", OutName: "out.msi"},
+		{Name: "msi-copy-then-edit-dest-hardlink-of-input", Input: "dummy.msi", InName: "in.msi", OutName: "out.msi", OutLink: "hard"},
 		{Name: "jar-rewrite", Input: "hello.jar", InName: "in.jar", OutName: "out.jar"},
 		{Name: "pgp-clearsign-merge", Input: "Release", InName: "Release", OutName: "InRelease", Args: []string{"-T", "pgp", "--clearsign"}},
 	}
@@ -417,6 +426,10 @@ func main() {
 			scenario{Name: "cab-rewrite-samepath-hardlinked", Input: "dummy.cab", InName: "in.cab", HardLink: true},
 			scenario{Name: "ps1-rewrite-samepath-hardlinked", Input: "hello.ps1", InName: "in.ps1", HardLink: true},
 			scenario{Name: "deb-rewrite-samepath-hardlinked", Input: "zlib1g_1.2.8.dfsg-5_i386.deb", InName: "in.deb", HardLink: true},
+			scenario{Name: "msi-copy-then-edit-dest-symlink-to-input", Input: "dummy.msi", InName: "in.msi", OutName: "out.msi", OutLink: "sym"},
+			scenario{Name: "pe-rewrite-dest-hardlink-of-input", Input: "ClassLibrary1.dll", InName: "in.dll", OutName: "out.dll", OutLink: "hard", PE: true},
+			scenario{Name: "pe-rewrite-dest-symlink-to-input", Input: "ClassLibrary1.dll", InName: "in.dll", OutName: "out.dll", OutLink: "sym", PE: true},
+			scenario{Name: "jar-rewrite-dest-hardlink-of-input", Input: "hello.jar", InName: "in.jar", OutName: "out.jar", OutLink: "hard"},
 			scenario{Name: "cat-wholefile-samepath", Input: "hyperv.cat", InName: "in.cat"},
 			scenario{Name: "manifest-wholefile-samepath", Input: "WindowsFormsApplication1.exe.manifest", InName: "in.exe.manifest"},
 		)
@@ -432,15 +445,15 @@ func main() {
 	defer os.RemoveAll(root)
 
 	type job struct {
-		s        scenario
-		present  bool
-		k        int
-		call     string
-		j        int
-		mode     string // kill | error
-		refSize  int64
-		seqLen   int
-		seq      []string
+		s       scenario
+		present bool
+		k       int
+		call    string
+		j       int
+		mode    string // kill | error
+		refSize int64
+		seqLen  int
+		seq     []string
 	}
 	var jobs []job
 	helperJobs := 0
@@ -449,6 +462,9 @@ func main() {
 		for _, present := range []bool{false, true} {
 			if s.OutName == "" && !present {
 				continue // same-path: destination is the input, always present
+			}
+			if s.OutLink != "" && !present {
+				continue // the destination is a second name of the input: always present
 			}
 			// pass 0 (twice: the main-thread sequence must be reproducible)
 			d0 := filepath.Join(root, "pass0")
@@ -468,6 +484,11 @@ func main() {
 			}
 			if t := tempsLeft(d0); len(t) > 0 {
 				run.Violation("temp-left-after-success:"+s.Name, fmt.Sprint(t), map[string]any{"scenario": s})
+			}
+			if p.out != p.in {
+				if cur, _ := os.ReadFile(p.in); !bytes.Equal(cur, p.inBytes) {
+					run.Violation("input-modified:"+s.Name, "uninterrupted run: the input file differs from what it was before signing to another path", map[string]any{"scenario": s})
+				}
 			}
 			p2 := s.prepare(d0, present)
 			r0b := trace(d0, s.argv(p2), "")
